@@ -19,6 +19,14 @@ mod common;
 pub mod config;
 mod workers;
 
+/// Verification hook: re-exports of otherwise private items.
+#[cfg(feature = "verif-hooks")]
+pub mod verif_hooks {
+    pub use crate::common::*;
+    pub use crate::workers::socket::verif_hooks::*;
+    pub use crate::workers::swarm::verif_hooks::*;
+}
+
 pub const APP_NAME: &str = "aquatic_http: HTTP BitTorrent tracker";
 pub const APP_VERSION: &str = env!("CARGO_PKG_VERSION");
 
